@@ -310,7 +310,7 @@ func checkC17(w *World, r *Report) {
 				return
 			}
 			evs := errValues(v)
-			if why, ok := c17Exceptions[ssaName(fn)+" | "+kind]; ok && len(evs) == 0 {
+			if why, ok := w.c17Exception(fn, kind); ok && len(evs) == 0 {
 				r.except("R17.1", ssaName(fn), construct, pos, why)
 				return
 			}
@@ -320,7 +320,7 @@ func checkC17(w *World, r *Report) {
 			}
 			for _, ev := range evs {
 				fl := a.flow(ev)
-				if why, ok := c17Exceptions[ssaName(fn)+" | "+kind]; ok && !fl.reachesReturn {
+				if why, ok := w.c17Exception(fn, kind); ok && !fl.reachesReturn {
 					r.except("R17.1", ssaName(fn), construct, pos, why)
 					continue
 				}
@@ -594,6 +594,49 @@ func (a *errAnalysis) checkTopLevel(r *Report) {
 // c17Exceptions: frozen, one entry per (function, callee kind), each confirmed by reading.
 var c17Exceptions = map[string]string{
 	"(*Engine).Load | Loader.GetModifiedTime": "a failing timestamp query never hides a failure: in the staleness test an error forces a reload (which re-raises any real loader failure through loader.Load), and at load time an unknown timestamp (0) only makes the template eligible for reload later",
+}
+
+// c17Exception: the frozen table, where "(*Engine).Load" stands for Engine.Load together with
+// the unexported helpers it calls statically inside the package (the function split in parts
+// is still the same code).
+func (w *World) c17Exception(fn *ssa.Function, kind string) (string, bool) {
+	if why, ok := c17Exceptions[ssaName(fn)+" | "+kind]; ok {
+		return why, true
+	}
+	why, ok := c17Exceptions["(*Engine).Load | "+kind]
+	if !ok {
+		return "", false
+	}
+	if w.loadPartsSet()[fn] {
+		return why + " (in " + ssaName(fn) + ", a part of Engine.Load)", true
+	}
+	return "", false
+}
+
+// loadPartsSet: Engine.Load and the unexported functions it calls statically (depth <= 3).
+func (w *World) loadPartsSet() map[*ssa.Function]bool {
+	if w.loadParts == nil {
+		w.loadParts = map[*ssa.Function]bool{}
+		root := w.ssaFunc(w.method("Engine", "Load"))
+		w.loadParts[root] = true
+		queue := []*ssa.Function{root}
+		for depth := 0; depth < 3; depth++ {
+			var next []*ssa.Function
+			for _, f := range queue {
+				instrsOf(f, func(in ssa.Instruction) {
+					if c, ok := in.(ssa.CallInstruction); ok {
+						g := c.Common().StaticCallee()
+						if g != nil && g.Pkg != nil && g.Pkg.Pkg.Path() == twigPath && g.Object() != nil && !g.Object().Exported() && !w.loadParts[g] {
+							w.loadParts[g] = true
+							next = append(next, g)
+						}
+					}
+				})
+			}
+			queue = next
+		}
+	}
+	return w.loadParts
 }
 
 var _ = fmt.Sprintf
